@@ -572,6 +572,26 @@ func genTok(optionMode string) func(ctx *Ctx) {
 				}
 			}
 		}
+		// scale (direct oracle only): long texts (1000 .. 40000 characters) of random characters and fragments
+		if ctx.P.ID == "C04" || ctx.P.ID == "C15" {
+			for _, ln := range []int{1000, 4100, 9000, 40000} {
+				var text []rune
+				for len(text) < ln {
+					if ctx.Rnd.Intn(3) == 0 {
+						text = append(text, []rune(fragments[ctx.Rnd.Intn(len(fragments))])...)
+					} else {
+						text = append(text, tokAlphabet[ctx.Rnd.Intn(len(tokAlphabet))])
+					}
+				}
+				for kind := 0; kind < 4; kind++ {
+					bits := 0
+					if ctx.P.ID == "C15" {
+						bits = ctx.Rnd.Intn(128)
+					}
+					ctx.OracleOnly(tokInput(kind, bits, text, defaultCsvCfg), fmt.Sprintf("scale: a text of %d characters", ln))
+				}
+			}
+		}
 		// scale (direct oracle only): more than a thousand tokens in a row that an option drops, and long runs of every kind
 		if optionMode == "all" && ctx.P.ID == "C15" {
 			for _, t := range []string{strings.Repeat("😀", 1300), strings.Repeat("/*c*/", 1300), "a " + strings.Repeat("#c\n ", 700) + "b", strings.Repeat("\uffff ", 1100) + "x",
